@@ -138,6 +138,7 @@ Claimed(p) == ~TooShort(p) /\ ~IsUnclaimedResp(p) /\ Len(p) <= MaxTotal
 (* that holds of p                                                           *)
 TruthfulK(p, t, e, c, k) ==
     /\ t = MT_INVALID => ~HdrOk(p)
+    /\ (t # MT_INVALID /\ HdrOk(p)) => t = TypeOf(p)       \* a message type, when named, is the packet's own
     /\ e = "InvalidPEC" => ~k
     /\ e = "InvalidRequestDataLength" =>
           /\ HdrOk(p) /\ IsCtl(p) /\ Len(p) >= 12
